@@ -23,7 +23,7 @@ theorem MStep.valid_of_possible {Sym : Type} {c : Cfg} {x : MStep Sym} (h : x.De
 /-- under the invariant, `ImpossibleSymbol` is returned *only* for symbols the model rejects
     (the second `ImpossibleSymbol` exit of the code, `scale · p = 0`, is dead) -/
 theorem encode_impossible_iff {Sym : Type} {c : Cfg} (hc : RValid c) {m : Model Sym}
-    (hm : m.WellFormed c.P) {e : Encoder} (hI : Inv c e) (s : Sym) :
+    (hm : m.WellFormed c.P) {e : Encoder} (hI : Inv c e) (hf : Fits c e 1) (s : Sym) :
     encode c m s e = .error .impossible ↔ m.enc s = none := by
   constructor
   · intro h
@@ -31,34 +31,41 @@ theorem encode_impossible_iff {Sym : Type} {c : Cfg} (hc : RValid c) {m : Model 
     | none => rfl
     | some cp =>
       obtain ⟨cum, p⟩ := cp
-      obtain ⟨e', he', _⟩ := encode_ok hc hm hI hs
+      obtain ⟨e', he', _⟩ := encode_ok hc hm hI hf hs
       rw [he'] at h; cases h
   · exact encode_impossible
 
 /-- rejected attempts can be erased from a history -/
 theorem attempts_erasure {Sym : Type} {c : Cfg} : ∀ (xs : List (MStep Sym)) (e : Encoder),
-    Inv c e → (∀ x ∈ xs, x.DecValid c) →
+    Inv c e → Fits c e (xs.filter MStep.possible).length → (∀ x ∈ xs, x.DecValid c) →
     encodeAttempts c e xs = encodeMsg c e (xs.filter MStep.possible) := by
   intro xs
   induction xs with
-  | nil => intro e _ _; rfl
+  | nil => intro e _ _ _; rfl
   | cons x xs ih =>
-    intro e hI hv
+    intro e hI hf hv
     have hx := hv x (by simp)
     have hv' : ∀ y ∈ xs, y.DecValid c := fun y hy => hv y (by simp [hy])
     by_cases hp : x.possible = true
     · have hxv := MStep.valid_of_possible hx hp
       obtain ⟨hpp, hcp⟩ := hxv.cp_ok
       have hI' : Inv (cfgAt c x.B x.P) e := hI
+      have hf' : Fits (cfgAt c x.B x.P) e ((xs.filter MStep.possible).length + 1) := by
+        have : ((x :: xs).filter MStep.possible).length
+            = (xs.filter MStep.possible).length + 1 := by simp [List.filter_cons, hp]
+        rw [this] at hf; exact hf
       have henc : encode (cfgAt c x.B x.P) x.model x.sym e
           = .ok (encPure (cfgAt c x.B x.P) e x.cp.1 x.cp.2) := by
         unfold encode
         rw [hxv.enc_eq]
-        exact encodeCP_eq_pure hx.1 hI' hpp hcp
+        exact encodeCP_eq_pure hx.1 hI' (hf'.mono (by omega)) hpp hcp
       have hI2 : Inv c (encPure (cfgAt c x.B x.P) e x.cp.1 x.cp.2) :=
         encPure_inv hx.1 hI' hpp hcp
+      have hf2 : Fits c (encPure (cfgAt c x.B x.P) e x.cp.1 x.cp.2)
+          (xs.filter MStep.possible).length :=
+        encPure_fits (c := cfgAt c x.B x.P) hx.1 hI' hpp hcp hf'
       simp only [encodeAttempts, henc, List.filter_cons, hp, if_true, encodeMsg]
-      exact ih _ hI2 hv'
+      exact ih _ hI2 hf2 hv'
     · have hnone : x.model.enc x.sym = none := by
         unfold MStep.possible at hp
         cases h : x.model.enc x.sym with
@@ -66,12 +73,17 @@ theorem attempts_erasure {Sym : Type} {c : Cfg} : ∀ (xs : List (MStep Sym)) (e
         | some v => rw [h] at hp; simp at hp
       have henc : encode (cfgAt c x.B x.P) x.model x.sym e = .error .impossible :=
         encode_impossible hnone
+      have hf2 : Fits c e (xs.filter MStep.possible).length := by
+        have : ((x :: xs).filter MStep.possible).length
+            = (xs.filter MStep.possible).length := by simp [List.filter_cons, hp]
+        rw [this] at hf; exact hf
       simp only [encodeAttempts, henc, List.filter_cons, hp]
-      exact ih e hI hv'
+      exact ih e hI hf2 hv'
 
 /-- everything encoded around rejected attempts still round-trips -/
 theorem roundtrip_after_rejections {Sym : Type} {c : Cfg} (hc : RValid c)
-    (xs : List (MStep Sym)) (hv : ∀ x ∈ xs, x.DecValid c) :
+    (xs : List (MStep Sym)) (hn : MsgFits c (xs.filter MStep.possible).length)
+    (hv : ∀ x ∈ xs, x.DecValid c) :
     ∃ e ws d0 d, encodeAttempts c (Encoder.empty c) xs = .ok e ∧
       intoCompressed c e = .ok ws ∧
       Decoder.fromCompressed c ws = .ok d0 ∧
@@ -82,21 +94,21 @@ theorem roundtrip_after_rejections {Sym : Type} {c : Cfg} (hc : RValid c)
     intro x hx
     obtain ⟨h1, h2⟩ := List.mem_filter.mp hx
     exact MStep.valid_of_possible (hv x h1) h2
-  obtain ⟨e, ws, d0, d, h1, h2, h3, h4, h5, _⟩ := roundtrip hc _ hvalid
+  obtain ⟨e, ws, d0, d, h1, h2, h3, h4, h5, _⟩ := roundtrip hc _ hn hvalid
   refine ⟨e, ws, d0, d, ?_, h2, h3, h4, h5⟩
-  rw [attempts_erasure xs _ (inv_empty hc) hv]; exact h1
+  rw [attempts_erasure xs _ (inv_empty hc) (fits_empty hn) hv]; exact h1
 
 /-! ### no fault of any kind -/
 
 /-- `encode_symbol` under the invariant with a well-formed model: `Ok` or `ImpossibleSymbol` -/
 theorem encode_no_fault {Sym : Type} {c : Cfg} (hc : RValid c) {m : Model Sym}
-    (hm : m.WellFormed c.P) {e : Encoder} (hI : Inv c e) (s : Sym) :
+    (hm : m.WellFormed c.P) {e : Encoder} (hI : Inv c e) (hf : Fits c e 1) (s : Sym) :
     (∃ e', encode c m s e = .ok e' ∧ Inv c e') ∨ encode c m s e = .error .impossible := by
   cases hs : m.enc s with
   | none => right; exact encode_impossible hs
   | some cp =>
     obtain ⟨cum, p⟩ := cp
-    left; exact encode_ok hc hm hI hs
+    left; exact encode_ok hc hm hI hf hs
 
 /-- `decode_symbol` on arbitrary data: `Ok` or `InvalidData` -/
 theorem decode_no_fault {Sym : Type} {c : Cfg} (hc : RValid c) {m : Model Sym}
